@@ -271,6 +271,16 @@ Theorem C20_driver_missing_fragment : forall rc rf s laa legacy trs st k st' trs
   resolve_disconnected fd (set_nodes_from (st_mol st') (S "fragname") (get_node_attributes (st_mol st') (S "atomname"))) = Err e ->
   drive rc rf s laa legacy trs = Err e.
 Proof. exact driver_missing_fragment. Qed.
+(** ... and from the STRING itself (re.findall of the blocks computed): s = "{body}" ++ tail, s = "{body}.{fbody}" *)
+Theorem C20_driver_string_base_error : forall rc rf body tail laa legacy trs e,
+  body <> [] -> ~ In "}"%char body -> rc ("{"%char :: body ++ ["}"%char]) = Err e ->
+  drive rc rf ("{"%char :: body ++ "}"%char :: tail) laa legacy trs = Err e.
+Proof. exact driver_string_base_error. Qed.
+Theorem C20_driver_string_fragment_error : forall rc rf body fbody laa legacy trs mol e,
+  body <> [] -> ~ In "}"%char body -> fbody <> [] -> ~ In "}"%char fbody ->
+  rc ("{"%char :: body ++ ["}"%char]) = Ok mol -> rf ("{"%char :: fbody ++ ["}"%char]) laa = Err e ->
+  drive rc rf ("{"%char :: body ++ "}"%char :: "."%char :: "{"%char :: fbody ++ ["}"%char]) laa legacy trs = Err e.
+Proof. exact driver_string_fragment_error. Qed.
 (** read_fragments as `for fragment in split: strip_bonding_descriptors, template construction, first name wins`, for ANY
     template construction [mk] and dict insertion [add]: a fragment text strip_bonding_descriptors refuses, anywhere in the list *)
 Theorem C20_fragments_strip_error : forall fo mk add block aa pre nt post e,
@@ -366,3 +376,5 @@ Print Assumptions C20_driver_grammar_annotation_error.
 Print Assumptions C20_driver_grammar_dangling.
 Print Assumptions C20_driver_grammar_duplicate.
 Print Assumptions C20_nonvacuous_driver.
+Print Assumptions C20_driver_string_base_error.
+Print Assumptions C20_driver_string_fragment_error.
